@@ -59,9 +59,33 @@ def run(rep, kf, tier, seed):
                               "violations": 0 if why is None else 1})
             return r
         return f
+    def same_name_task():
+        # finding C11-K2: the probe document of the finding itself (kept out of the schematic family on purpose)
+        r = core.Report("C11", tier, seed)
+        t0 = time.time()
+        lines = boundedchecks.mypy_same_name_errors()
+        e = kf.get("C11-K2-property-named-like-its-model") if kf is not None else None
+        ob = Obligation(id="C11.bounded.mypy[same-name]", props=["C11"], unit="generated package for a model Status with a property status",
+                        bounded=True, backend="mypy (repository settings)", time_s=time.time() - t0,
+                        formula="a model with a property whose python name is the model's module name passes mypy   [bounded]")
+        if not lines:
+            ob.status, ob.detail = PROVED, "no errors"
+        elif e is not None and all("status.py" in l for l in lines):
+            ob.status, ob.detail, ob.findings = REFUTED, " | ".join(lines[:4]), [e["id"]]
+            r.known_lines.append((e["id"], e["what"]))
+        else:
+            ob.status, ob.detail = REFUTED, " | ".join(lines[:4])
+            ob.witness = {"kind": "call", "qualname": "pyvc.boundedchecks:mypy_same_name_errors", "args": [], "kwargs": {},
+                          "violates": "len(result) > 0"}
+        r.add(ob)
+        r.bounded.append({"id": ob.id, "bound": "one probe document", "violations": 0 if ob.status == PROVED or ob.findings else 1,
+                          "known": ob.findings})
+        return r
     which = ["models", "endpoints", "models-literal"]
-    for r in core.run_parallel([mypy_task(w) for w in which]):
+    for r in core.run_parallel([mypy_task(w) for w in which] + [same_name_task]):
         rep.merge(r)
+    from props.common import run_bounded
+    run_bounded(rep, kf, "C11", ["response_type"], tier)
     rep.trusted.extend(["pyvc Engine B", "mypy 2.3.1 with the repository's settings (dateutil stubs are not installed: "
                         "ignore_missing_imports for dateutil only)"])
     rep.assumptions.extend([
